@@ -11,3 +11,5 @@ Proof. intros. unfold src_tagged_hash, tagged_hash. cbv zeta. rewrite <- ?app_as
 
 Lemma src_schnorr_tagged_hash_eq : forall sha256 tag msg, src_schnorr_tagged_hash sha256 tag msg = Ok (tagged_hash sha256 msg tag).
 Proof. intros. unfold src_schnorr_tagged_hash, tagged_hash. cbv zeta. rewrite <- ?app_assoc. reflexivity. Qed.
+
+#[global] Hint Rewrite src_tagged_hash_eq src_schnorr_tagged_hash_eq : tie.
